@@ -100,10 +100,21 @@ func authGate(s *an.PathState, user *an.Term) *an.Term {
 	return nil
 }
 
-func nonEmpty(s *an.PathState, t *an.Term) bool {
+func nonEmpty(s *an.PathState, t *an.Term) bool { return nonEmptyKey(s, t.K) }
+
+// nonEmptyKey: the path establishes x != "" (or len(x) != 0, len(x) > 0, len(x) >= 1) for the string with key k.
+func nonEmptyKey(s *an.PathState, k string) bool {
 	for _, a := range s.Atoms {
-		if a.Op == "!=" && a.A.K == t.K && a.B.IsConst(`""`) {
+		if a.B == nil {
+			continue
+		}
+		if a.Op == "!=" && a.A.K == k && a.B.IsConst(`""`) {
 			return true
+		}
+		if a.A.IsCallTo("builtin len") && a.A.Op == "call" && a.A.Args[0].StripConv().K == k {
+			if (a.Op == "!=" && a.B.IsConst("0")) || (a.Op == ">" && a.B.IsConst("0")) || (a.Op == ">=" && a.B.IsConst("1")) {
+				return true
+			}
 		}
 	}
 	return false
